@@ -126,6 +126,8 @@ PROPS["C06"] = _api("C06", ["C06_rejected_unchanged", "C06_populate_validates_fi
                             "dispatch_unchanged", "updateToxic_fixed_err", "C06_rejected_unchanged_reachable", "inv_step"],
                     ["treatment of traffic: the registry state compared contains every toxic's attributes and toxicity; that links run exactly the listed configuration is C04"])
 PROPS["C06"]["lean_modules"] = PROPS["C06"]["lean_modules"] + ["Toxi.Proofs.Lemmas.InvStep"]
+# C06 under concurrency: a refused create leaves no listener behind (E7; its C16 verdicts are C16's)
+PROPS["C06"]["engines"] = PROPS["C06"]["engines"] + [{"engine": "e7", "args": [], "tag": "C06conc"}]
 PROPS["C17"] = _api("C17", ["C17_same_untouched", "C17_idempotent", "C17_differs_replaces", "C17_spelling", "populateLoop_all_match"],
                     ["'every spelling': theorem C17_spelling is under hypothesis spellingOK on the relation measured from the real Proxy.Differs; the model driver evaluates spellingOK on the measured table in every run (a false value is reported as a broken obligation)",
                      "live connections surviving a matching populate / dropped by a replacing one: registry-level here (the proxy object is untouched / stopped); socket level belongs to C03"])
@@ -270,6 +272,21 @@ for _p in ("C03", "C15"):
 PROPS["C20"]["lean_modules"] = PROPS["C20"]["lean_modules"] + ["Toxi.Proofs.Lemmas.Counters"]
 PROPS["C20"]["theorems"] = PROPS["C20"]["theorems"] + ["Toxi.Link.C20_graceful_exact", "Toxi.Link.ginv_exec", "Toxi.Link.frame_anymove",
                                                        "Toxi.Link.keep_sinkMove", "Toxi.Link.keep_sourceMove", "Toxi.Link.ExC.exec3"]
+
+# C12 at link level: a slicer updated on live connections (the real UpdateToxicJson copies the toxic object)
+PROPS["C12"]["engines"] = PROPS["C12"]["engines"] + [{"engine": "e3", "gotest": True, "args": ["-props", "C12", "-mode", "preserving"], "tag": "C12link"}]
+PROPS["C12"]["needs_gotest"] = True
+# C10 / C11 / C13 at the level of whole connections (Proofs/Lemmas/Blackhole.lean, Limit.lean)
+PROPS["C10"]["lean_modules"] = PROPS["C10"]["lean_modules"] + ["Toxi.Proofs.Lemmas.Blackhole"]
+PROPS["C10"]["theorems"] = PROPS["C10"]["theorems"] + ["Toxi.Link.C10_link_blackhole", "Toxi.Link.link_blackhole", "Toxi.Link.d_anymove",
+                                                       "Toxi.Link.timeout_dry", "Toxi.Link.DInv_new", "Toxi.Link.ExB.b1_exec"]
+PROPS["C13"]["lean_modules"] = PROPS["C13"]["lean_modules"] + ["Toxi.Proofs.Lemmas.Blackhole"]
+PROPS["C13"]["theorems"] = PROPS["C13"]["theorems"] + ["Toxi.Link.C13_link_reset_no_data", "Toxi.Link.link_blackhole"]
+PROPS["C11"]["lean_modules"] = PROPS["C11"]["lean_modules"] + ["Toxi.Proofs.Lemmas.Limit"]
+PROPS["C11"]["theorems"] = PROPS["C11"]["theorems"] + ["Toxi.Link.C11_link_limit", "Toxi.Link.n_anymove", "Toxi.Link.n_ack", "Toxi.Link.n_fire",
+                                                       "Toxi.Link.lim_step", "Toxi.Link.blen_fire", "Toxi.Link.wsum_modify", "Toxi.Link.NInv_new",
+                                                       "Toxi.Link.ExN.n1_exec"]
+PROPS["C19"]["theorems"] = PROPS["C19"]["theorems"] + ["Toxi.Client.C19_handle_reads_back"]
 
 # ---- regenerated facts: every property also depends on the ties of the code it models
 _TIES = {
